@@ -28,7 +28,7 @@ def gen(args) -> list:
 
     rnd = random.Random(seed)
     cals = [CalendarSystem.for_id(c) for c in CalendarSystem.ids]
-    cults = [None, None] + textgen.cultures(rnd, 6) + [textgen.synthetic_culture(rnd) for _ in range(4)]
+    cults = [None, None] + textgen.cultures(rnd, 6) + [textgen.synthetic_culture(rnd, no_designators=(i == 0)) for i in range(4)]
     signal.signal(signal.SIGALRM, _alarm)
     evs = []
     todo = [(rnd.choice(TYPES), textgen.random_pattern(rnd.choice(TYPES), rnd)) for _ in range(n)]
@@ -45,6 +45,9 @@ def gen(args) -> list:
                 pass
     # every standard pattern letter under every synthetic culture (their expansion is the culture's own pattern text)
     forced = [(t, letter, c) for c in cults[-4:] for t in TYPES for letter in textgen.STANDARD[t]]
+    # ... and the 12-hour clock with and without designator fields under each of them (one has no designators at all)
+    forced += [(t, ptxt, c) for c in cults[-4:] for t, ptxt in (("LocalTime", "hh:mm tt"), ("LocalTime", "h:mm t"), ("LocalTime", "hh tt"), ("LocalTime", "h"),
+                                                              ("LocalDateTime", "uuuu-MM-dd hh:mm tt"), ("LocalDateTime", "M/d/yyyy h t"))]
     todo = [(t, p, None) for t, p in todo] + forced + [(rnd.choice(TYPES[:4]), rnd.choice(["HH:mm", "d", "uuuu-MM-dd", "G", "t", "+HH:mm"]), c) for c in sweep]
     for typ, ptext, forced_culture in todo:
         culture = forced_culture if forced_culture is not None else rnd.choice(cults)
